@@ -403,7 +403,7 @@ def run_parallel(exe, lines, jobs=JOBS, env=None):
 
 
 def impl_line(impl, c, env=None):
-    rc, o, e = vlib.run_lines(impl, [c], timeout=120, env=dict(env or {}, C14_HANG_CPU='5'))
+    rc, o, e = vlib.run_lines(impl, [c], timeout=120, env=dict(env or {}, C14_HANG_CPU='3'))
     if rc == HANG_RC and len(o) == 1 and ' HANG@case' in o[0]:
         return hang_line(o[0])
     if rc != 0 or len(o) != 1:
